@@ -24,7 +24,7 @@ def gen(rng, tier) -> str:
     sh = rng.sample(SHAPES, 3)
     for i, s in enumerate(sh):
         steps.append(f"A|T{i}|FloatTensor,0,{s}")
-    kinds = {"p1": rng.choice(["fresh", "fresh", "inst", "unhash"]), "p2": "long", "p3": rng.choice(["bad", "bad", "badfalsy", "badstr", "baddict"]), "p4": "falsy"}
+    kinds = {"p1": rng.choice(["fresh", "fresh", "inst", "unhash", "cls"]), "p2": rng.choice(["long", "long", "mapobj"]), "p3": rng.choice(["bad", "bad", "badfalsy", "badstr", "baddict", "instbad"]), "p4": "falsy"}
     for pid, kind in kinds.items():
         steps.append(f"V|{pid}|{kind}|{rng.choice(['', 'k:3', 'k:3;n:4', 'a:2;k:3', 'z:9', 'k:2;n:4', 'k:3;n:6', 'k:0', 'k:0;n:1', 'a:0;k:3'])}")
     fns = {}
@@ -136,13 +136,13 @@ def _expected(line: str):
             p = pid[5:] if pid.startswith("self:") else pid
             if pid == "-":
                 scope = {}
-            elif kind.get(p) in ("fresh", "long", "falsy", "inst", "unhash"):
+            elif kind.get(p) in ("fresh", "long", "falsy", "inst", "unhash", "cls", "mapobj"):
                 scope = cur[p]
                 if scope is UNKNOWN:
                     exp.append(("call", None))
                     body_update(fid, None)
                     continue
-            elif kind.get(p) in ("bad", "badfalsy", "badstr", "baddict"):
+            elif kind.get(p) in ("bad", "badfalsy", "badstr", "baddict", "instbad"):
                 exp.append(("call", "not-a-provider"))   # an object that does not implement the protocol
                 continue
             else:
@@ -195,6 +195,9 @@ def judge(case, impl_out, spec):
         if n_dec > n_exp:
             first = next(p_ for p_ in parts[:-1] if p_.startswith("decor pyexc"))
             return f"a decoration that must succeed raised: {n_dec} output parts say {first!r}, the history explains {n_exp} of them (\"self\" on a function without self / cls)"
+        if n_dec < n_exp:
+            return (f"\"self\" as scope provider on a function without self / cls (no parameter at all included) must be refused with TypeError at decoration: the history has {n_exp} "
+                    f"such decorations and calls of them, the output shows {n_dec} refusals")
         return None
     for k, ((what, e), got) in enumerate(zip(exp, parts)):
         if e is None or e == "decor-failed":
